@@ -191,6 +191,21 @@ def callgraph(crate, include_refs=True):
                         if isinstance(v, dict) and "fn" in v:
                             out.add(norm_path(v["fn"]))
         g[b["npath"]] = out
+    # class-hierarchy fallback: a trait method called on a type parameter (inside generic impls such as
+    # `impl<T: Resolvable> Resolvable for Vec<T>`) cannot be resolved to one instance; it may dispatch to every impl
+    decl_impls = {}
+    for b in crate.bodies.values():
+        tr = b.get("impl_trait")
+        if tr and "{closure" not in b["npath"] and norm_path(tr).startswith(("alpha::", "delta::", "penne::")):
+            # (only traits of the analysed crate: their impls are all visible; std traits called on type parameters are
+            # instantiated by callers outside generic code in this crate)
+            decl_impls.setdefault("%s::%s" % (norm_path(tr), b["npath"].split("::")[-1]), set()).add(b["npath"])
+    for k, out in g.items():
+        extra = set()
+        for c in out:
+            if c in decl_impls and c not in crate.bodies:
+                extra |= decl_impls[c]
+        out |= extra
     return g
 
 
